@@ -112,7 +112,8 @@ def layout_table():
 
 def obj_sweeps(tier, seed, path):
     t = layout_table()
-    return obj_gen.write(path, list(obj_gen.sweeps(t, seed, tier)) + list(obj_gen.chains(t, seed, tier)))
+    return obj_gen.write(path, list(obj_gen.sweeps(t, seed, tier)) + list(obj_gen.chains(t, seed, tier)) +
+                         list(obj_gen.rawhdrs(seed, 10 if tier == 'quick' else 200)))
 
 
 def obj_builds(tier, seed, path):
